@@ -107,7 +107,7 @@ func checkExplain(c Case, o *vf.Obs) error {
 			return fmt.Errorf("explain.Problem.CNF(): clause #%d printed as %v, is %v", i, cls[i], c.Clauses[i])
 		}
 	}
-	pb2, err := explain.ParseCNF(strings.NewReader(txt))
+	pb2, err := explain.ParseCNF(texts.ReaderFor(txt))
 	if err != nil {
 		return fmt.Errorf("explain.ParseCNF cannot read back explain.Problem.CNF(): %v\n--- text ---\n%s", err, txt)
 	}
@@ -210,12 +210,12 @@ func check(c Case, o *vf.Obs) error {
 		if _, _, err := texts.StrictDIMACS(txt); err != nil {
 			return fmt.Errorf("Problem.CNF() is not well-formed DIMACS: %v\n--- text ---\n%s", err, txt)
 		}
-		pb2, err = solver.ParseCNF(strings.NewReader(txt))
+		pb2, err = solver.ParseCNF(texts.ReaderFor(txt))
 	} else {
 		if err := texts.StrictOPB(txt); err != nil {
 			return fmt.Errorf("%s is not well-formed OPB: %v\n--- text ---\n%s", c.Printer, err, txt)
 		}
-		pb2, err = solver.ParseOPB(strings.NewReader(txt))
+		pb2, err = solver.ParseOPB(texts.ReaderFor(txt))
 	}
 	if err != nil {
 		return fmt.Errorf("the rendering (%s) cannot be parsed back: %v\n--- text ---\n%s", c.Printer, err, txt)
